@@ -12,18 +12,29 @@ MECH = ("The end-to-end sentence of the property is a statement about two runs o
         "contracts that pin it down (each clause tagged with this property id in specs/*.vspec). ")
 LANGS7 = "all seven languages (en, fr, es, pt, it, de, nl)"
 TECH = "Verus function contracts on the real code, extracted mechanically from /repo on every run"
+DRV = ("COMPOSITION (spelling drivers, layer L3c), proved for English, Spanish and French: for EVERY n in [1, 10^12) the words of the standard spelling of n, "
+       "offered in order to the language's word model from a fresh builder, are all accepted (link words: and / y / et) and leave exactly the decimal digits of n "
+       "(machine-checked induction over the four three-digit groups. English: every placement of 'and', space or hyphen between tens and units - the hyphenated "
+       "word goes through the compound branch. Spanish: long scale 'mil millones', one-word forms up to veintinueve, apocopated un / veintiun, 'mil' without 'un'. "
+       "French: soixante-dix / quatre-vingt(s) / quatre-vingt-dix, 'et' before un and onze, cent(s), mille, million(s), milliard(s), written as separate words, the "
+       "blocking flags between words tracked). A verified exec driver per language then shows, from the CONTRACTS of the real exec_group (both directions), apply and "
+       "format_and_value only, that validating those words returns one number whose builder holds exactly those digits and whose text is those digits. ")
 
 CLAIMED = {
     "C01": {
-        "text": "Word-level half of the cardinal round trip, for " + LANGS7 + ": text2digits/exec_group are proved to offer every whitespace-separated, "
+        "text": "Cardinal round trip. Word level, for " + LANGS7 + ": text2digits/exec_group are proved to offer every whitespace-separated, "
                 "lower-cased word in order to one fresh builder through the language's apply and to render that builder (chain contract); (L3a) the real `apply` of each language is proved equal, arm by arm, to a "
                 "frozen model table (word -> guard -> DigitString operation); (L3b) for every cardinal word of an independently written grammar table the model "
                 "performs exactly the place-value instruction the grammar prescribes (digits, guard, blocking flags), and a comma is never a number word; the "
                 "DigitString operations themselves have strongest-postcondition contracts (C12). For de/it/nl the splitter's pattern list in Default::default is "
-                "proved equal to the frozen list and every table word is proved not to be split. NOT proved: the composition lemma that the words of spell(n) "
-                "executed in sequence yield decimal(n) for all n < 10^12 (no spelling driver was built), and the behaviour of glued / hyphenated compounds beyond "
-                "'the group result is placed as a whole under the Overlap guard' (proved for en, fr, de, it, nl; the daachorse automaton is assumed).",
-        "note": TRUST + "Known finding (German 'eine Million') listed in known_findings.txt. Bounded evidence for the composition (thorough tier only, never counted as "
+                "proved equal to the frozen list and every table word is proved not to be split. The error of a refused phrase is specified too (exec_group / text2digits, "
+                "both directions). " + DRV + "NOT proved: the composition for pt, it, de, nl (bounded evidence only); fully hyphenated French and the glued compounds "
+                "of de/nl/it beyond 'the group result is placed as a whole under the Overlap guard' (the daachorse automaton and str::split are assumed); the same phrase "
+                "found inside a sentence by the scanner (only the generic scanner theorems of C06/C07 apply); the text-level corollary for text2digits is the driver theorem "
+                "plus text2digits' own two-directional contract, both machine-checked, composed on paper.",
+        "note": TRUST + "Known finding (German 'eine Million') listed in known_findings.txt. A-SPLIT / A-DASH (English hyphenated words): str::split('-') is an uninterpreted "
+                "function with the axiom 'two dash-free pieces joined by one dash split back into those pieces', and the hoisted call exec_group(word.split('-')) is assumed to "
+                "compute the fold of the word model over the parts. Bounded evidence for the languages without driver (thorough tier only, never counted as "
                 "proof): about 2 800 spelled integers per language and seed from independent spellers (tools/spell.py) agree with text2digits and the rewriter.  WordSplitter (daachorse) has an assumed contract: is_splittable == "
                 "'some pattern occurs and the word is not itself a pattern'; Italian/German/Dutch values are assumed to come from Default::default (private field).",
         "design_ref": "DESIGN.md §12.3 C01",
@@ -49,13 +60,17 @@ CLAIMED = {
         "design_ref": "DESIGN.md §12.3 C03",
     },
     "C04": {
-        "text": "As C01 for the ordinal vocabulary of " + LANGS7 + ": every ordinal word form of the grammar table (all gender/number/case inflections) is proved to "
+        "text": "Ordinal round trip. Word level, for " + LANGS7 + ": every ordinal word form of the grammar table (all gender/number/case inflections) is proved to "
                 "be lemmatized to its table entry, to place the digits of its cardinal under the grammar's guard, to set exactly the marker the grammar prescribes "
-                "(get_morph_marker contract) and to freeze the number; format_and_value is proved to render digits followed by the marker. NOT proved: ranks that "
-                "need several words or a glued compound (composition, see C01).",
+                "(get_morph_marker contract) and to freeze the number; format_and_value is proved to render digits followed by the marker. COMPOSITION, proved for English "
+                "(every rank n in [1, 10^12): the spelling of n with its last word in ordinal form - unit, teen, ten, hundredth, thousandth, millionth, billionth; hyphenated or not) "
+                "and Spanish (every rank in [1, 1999] in the four gender/number forms, each word inflected alike; the bare 'segundo(s)', which the language reads as the time unit, "
+                "excepted): the words are accepted as one number, the builder holds exactly the digits of n and the marker of the form (st / nd / rd / th; the four Spanish markers), "
+                "the number is flagged ordinal, and the verified exec driver derives from the contracts of the real exec_group / apply / format_and_value that the text is those digits "
+                "followed by that marker. NOT proved: multi-word ordinals of fr, pt, it, de, nl (bounded evidence only).",
         "note": TRUST + "Found and fixed through these obligations: en 'sixtieth', es 'cuadringentésimo', es 'tercer', fr 'huitantième', it 'sedicesimo', "
                 "'settantunesimo', 'centunesimo' (known_findings.txt).",
-        "design_ref": "DESIGN.md §12.3 C04",
+        "design_ref": "DESIGN.md §12.3 C04, §13",
     },
     "C05": {
         "text": "WordToDigitParser::push / string_and_value contracts: a decimal-separator word is accepted only after a non-ordinal number, only once, and is reported "
@@ -77,7 +92,9 @@ CLAIMED = {
     "C07": {
         "text": "Failure atomicity, proved: every DigitString operation and every language's apply/apply_decimal leave the builder's digits, zeros, marker and frozen "
                 "flag unchanged when they return Err; WordToDigitParser::push leaves both builders untouched on a rejected word; the scanner ends the open number "
-                "exactly when push is rejected and starts the next from a fresh parser. NOT proved: the two-run statement 'validator(span) = occurrence' and "
+                "exactly when push is rejected and starts the next from a fresh parser. The validator is specified in both directions: exec_group (and text2digits through it) "
+                "returns Ok exactly with the chain of apply outcomes over all its words on one fresh builder, and Err with the error of the first word refused outright after a soft prefix, "
+                "Incomplete when the last word was a link word, NaN for an empty group. NOT proved: the two-run statement 'validator(span) = occurrence' and "
                 "threshold-0 completeness.",
         "note": TRUST + MECH,
         "design_ref": "DESIGN.md §12.3 C07",
@@ -85,17 +102,24 @@ CLAIMED = {
     "C08": {
         "text": "Per-word guards that keep numbers apart, proved for " + LANGS7 + " against the grammar tables: units refused after 'ten', tens/teens refused over "
                 "occupied positions (DigitString::put/put_digit_at exact acceptance conditions), blocking flags (fr/de/nl unit-before-ten, pt/es restrictions) "
-                "set and cleared exactly as the grammar rows say; zero accepted only on an empty value. NOT proved: the (a,b) in [0,99]^2 pair sweep as a theorem "
-                "(composition).",
+                "set and cleared exactly as the grammar rows say; zero accepted only on an empty value. PAIR THEOREM, proved for English and Spanish at the level of the word model: "
+                "after a complete number a in [1,99], the first word of a number b in [0,99] is accepted exactly when a is a round ten (en: from twenty, es: from thirty) and b is a unit - "
+                "the two are then the spelling of a + b - and in every other case it is refused outright (never as a link word) with the state untouched, so that the scanner theorem "
+                "'a refused word ends the number and starts a new one' (C07) applies: 'twenty twelve' is 20 12, 'ten five' is 10 5, 'five zero' is 5 0; dictated digits: after a non-zero "
+                "digit every further digit word, zero included, is refused outright. NOT proved: the pair sweep for fr, pt, it, de, nl and with the conjunction as joiner "
+                "(bounded: exhaustive sweep in the thorough tier).",
         "note": TRUST + MECH,
         "design_ref": "DESIGN.md §12.3 C08",
     },
     "C09": {
         "text": "Exact contracts of the lone-number policy for all inputs: FindNumbers::number_end and NumTracker::number_end (three-way split keep / hold / drop as a "
                 "function of value < threshold, ordinal, single digit, contiguity), sequence_breaker, and outside_number (what breaks a sequence: a non-linking word or "
-                "a lone period); is_linking is the vocabulary lookup on the lower-case form. NOT proved: monotonicity across two thresholds (two-run corollary); "
-                "f64 `<` is an assumed total order helper.",
+                "a lone period); is_linking is the vocabulary lookup on the lower-case form. Float facts, complete proofs by Kani on the scanner's own comparison expression "
+                "(loop-free harnesses over full-domain symbolic f64): a NaN threshold hides nothing; a threshold of zero or below hides no non-negative value; raising the threshold "
+                "is monotone (v < t1 and t1 <= t2 imply v < t2); a value equal to the threshold is not small. NOT proved: monotonicity of whole outputs across two thresholds as a "
+                "two-run theorem (it is the paper corollary of the policy contract and the monotonicity lemma).",
         "note": TRUST + MECH,
+        "technique": TECH + "; complete Kani proofs (loop-free harnesses, full-domain symbolic f64) for the float facts about the scanner's comparison expression",
         "design_ref": "DESIGN.md §12.3 C09",
     },
     "C10": {
@@ -143,7 +167,8 @@ CLAIMED = {
     "C15": {
         "text": "Single-run stream contracts proved generically over a prophetic iterator: FindNumbers::new reads nothing; push handles a token flagged "
                 "not_a_number_part by ending the number in progress and never placing it inside an occurrence; a token that declares itself unrelated to its "
-                "predecessor never continues the predecessor's number; a comma is refused by every interpreter and is never a decimal separator. NOT proved: "
+                "predecessor never continues the predecessor's number; a comma is refused by every interpreter and is never a decimal separator; the Token trait's default hint "
+                "methods are pinned (a change of their bodies makes the unit undecided and is then looked at by the bounded stand-in with tokens that keep the defaults). NOT proved: "
                 "iter(stream) = batch(stream) (two-run), and the exact amount of look-ahead of the lazy iterator.",
         "note": TRUST + MECH,
         "design_ref": "DESIGN.md §12.3 C15",
@@ -151,8 +176,10 @@ CLAIMED = {
     "C16": {
         "text": "DigitString::put accepts '0' exactly on an empty value and counts it in leading_zeroes; to_string prepends exactly that many zeros; len/is_empty "
                 "include them (exact contracts, C12); for " + LANGS7 + " the zero word and every guard that inspects the number so far are proved against grammar "
-                "rows that are stated over values with leading zeros (found and fixed: Italian 'un milione' after a zero). NOT proved: the k-zeros + spell(n) sweep "
-                "as a theorem (composition).",
+                "rows that are stated over values with leading zeros (found and fixed: Italian 'un milione' after a zero). COMPOSITION, proved for English, Spanish and French: "
+                "for every z >= 0 and every n in [1, 10^12), z zero words followed by the spelling of n are accepted as ONE number whose builder holds exactly z leading zeros and the digits of n, "
+                "and the text is z zeros followed by those digits (spelling drivers, see C01); a zero word after a non-zero number is refused outright (pair theorem of C08, en/es). "
+                "NOT proved: the composition for pt, it, de, nl (bounded evidence only).",
         "note": TRUST + MECH,
         "design_ref": "DESIGN.md §12.3 C16",
     },
